@@ -192,11 +192,20 @@ pub fn check(cx: &Cx, rep: &mut Report) {
                 (OpK::Call, Some(Res::Reply { obj, .. })) => {
                     slot_obj.entry((o.c, o.slot)).or_insert(*obj);
                 }
+                // a clone denotes the same instance
+                (OpK::Clone, Some(Res::Handle { slot, some: true })) => {
+                    if let Some(obj) = slot_obj.get(&(o.c, o.slot)).copied() {
+                        slot_obj.insert((o.c, *slot), obj);
+                    }
+                }
                 _ => {}
             }
         }
         let mut ops: Vec<HOp> = vec![];
         let mut pending = false;
+        // an operation that changes the registry but whose instance the harness cannot name must not simply be left
+        // out of the history (that would make a correct history look inconsistent): such a history is not judged
+        let mut unnamed = false;
         for o in ix.ops.iter().filter(|o| o.b < settled && o.executed()) {
             let is_reg_op = matches!(o.op, OpK::FromRegistry | OpK::Setup | OpK::Register | OpK::Replace | OpK::Unregister | OpK::TryFromRegistry | OpK::AlreadyRunning);
             if !is_reg_op || o.arg != k as u64 {
@@ -214,11 +223,17 @@ pub fn check(cx: &Cx, rep: &mut Report) {
                 }
                 (OpK::Setup, _) => Kind::Lookup { res: None, known: false },
                 (OpK::Register, Some(Res::Prev { ok, prev, .. })) => {
-                    let Some(x) = slot_obj.get(&(o.c, o.slot)).copied().and_then(idx_of) else { continue };
+                    let Some(x) = slot_obj.get(&(o.c, o.slot)).copied().and_then(idx_of) else {
+                        unnamed = true;
+                        continue;
+                    };
                     Kind::Register { x, ok: *ok, prev_some: prev.is_some() }
                 }
                 (OpK::Replace, Some(Res::Prev { prev, .. })) => {
-                    let Some(x) = slot_obj.get(&(o.c, o.slot)).copied().and_then(idx_of) else { continue };
+                    let Some(x) = slot_obj.get(&(o.c, o.slot)).copied().and_then(idx_of) else {
+                        unnamed = true;
+                        continue;
+                    };
                     let pid = prev.and_then(|s| slot_obj.get(&(o.c, s as u16)).copied()).and_then(idx_of);
                     if pid.is_some() {
                         rep.premise("C08.ops.previous_entry_identified");
@@ -239,6 +254,10 @@ pub fn check(cx: &Cx, rep: &mut Report) {
             };
             ops.push(HOp { b: o.b, e, k: kind, desc });
         }
+        if unnamed {
+            rep.count("C08.histories_with_unnamed_instance", 1);
+            continue;
+        }
         if ops.is_empty() {
             continue;
         }
@@ -247,7 +266,9 @@ pub fn check(cx: &Cx, rep: &mut Report) {
         for (i, obj) in inst.iter().enumerate() {
             if let Some(t) = task_of_obj.get(obj) {
                 if cx.mt {
-                    let t_in = ix.cbs.iter().filter(|c| c.actor == *t && c.cb == Cb::Stopped).map(|c| c.i).min();
+                    // (the library announces a termination after the stopped() hook has returned: until then the
+                    // instance counts as running; the hook's exit is logged before it returns)
+                    let t_in = ix.cbs.iter().filter(|c| c.actor == *t && c.cb == Cb::Stopped).map(|c| c.o.map(|o| o.0).unwrap_or(c.i)).min();
                     let fault = ix.faults.iter().filter(|f| ix.ev[f.0 as usize].task == *t).map(|f| f.0).min();
                     if let Some(b) = [t_in, fault].into_iter().flatten().min() {
                         if b < settled {
